@@ -67,48 +67,71 @@ var profiles = map[int][]int{
 	6: {opPut, opDelete},                                                 // kv without TTL
 }
 
+// vConcreteArgs: draw keys from a small concrete set and values from a counter instead of symbolic
+// bytes (used where the interesting quantifier is elsewhere, e.g. the crash point inside Merge).
+var vConcreteArgs bool
+var vArgCounter byte
+
+func argKey() []byte {
+	if vConcreteArgs {
+		return []byte{byte('k' + vChoose(2))}
+	}
+	return vBytes(1)
+}
+
+func argVal() []byte {
+	if vConcreteArgs {
+		vArgCounter++
+		return []byte{'0' + vArgCounter}
+	}
+	return vBytes(1)
+}
+
 // genOp draws one operation of the given kind set with symbolic byte arguments and small concrete
 // integers/scores (decimal encodings are exercised on concrete values, DESIGN §3.7).
 func genOp(kinds []int) *sOp {
 	o := &sOp{kind: kinds[vChoose(len(kinds))]}
 	switch o.kind {
 	case opPut, opDelete, opPutTTL:
-		o.bucket = vKVBuckets[vChoose(len(vKVBuckets))]
-		o.key = vBytes(1)
+		o.bucket = vKVBuckets[0]
+		if !vConcreteArgs {
+			o.bucket = vKVBuckets[vChoose(len(vKVBuckets))]
+		}
+		o.key = argKey()
 		if o.kind != opDelete {
-			o.val = vBytes(1)
+			o.val = argVal()
 		}
 	case opRPush, opLPush:
 		o.dsKey = vDSKeys[0]
-		o.val = vBytes(1)
+		o.val = argVal()
 	case opLPop, opRPop:
 		o.dsKey = vDSKeys[0]
 	case opLRem:
 		o.dsKey = vDSKeys[0]
-		o.n1 = vSmallInts[vChoose(3)]
-		o.val = vBytes(1)
+		o.n1 = vSmallInts[vChoose(4)]
+		o.val = argVal()
 	case opLSet:
 		o.dsKey = vDSKeys[0]
 		o.n1 = vSmallInts[vChoose(2)]
-		o.val = vBytes(1)
+		o.val = argVal()
 	case opLTrim:
 		o.dsKey = vDSKeys[0]
 		o.n1 = vSmallInts[vChoose(2)]
 		o.n2 = vSmallInts[1+vChoose(2)]
 	case opSAdd, opSRem:
 		o.dsKey = vDSKeys[vChoose(2)]
-		o.val = vBytes(1)
+		o.val = argVal()
 	case opSPop:
 		o.dsKey = vDSKeys[0]
 	case opSMove:
 		o.dsKey, o.dsKey2 = vDSKeys[0], vDSKeys[1]
-		o.val = vBytes(1)
+		o.val = argVal()
 	case opZAdd:
-		o.key = vBytes(1)
+		o.key = argKey()
 		o.score = vScores[vChoose(len(vScores))]
-		o.val = vBytes(1)
+		o.val = argVal()
 	case opZRem:
-		o.key = vBytes(1)
+		o.key = argKey()
 	case opZRemRange:
 		o.n1 = vSmallInts[1+vChoose(2)]
 		o.n2 = vSmallInts[1+vChoose(3)]
@@ -363,29 +386,34 @@ func genSeed(profile int) ([][]*sOp, [][]byte) {
 	var txs [][]*sOp
 	switch profile {
 	case 0, 6:
-		k := vBytes(1)
+		k := argKey()
 		keys = append(keys, k)
-		txs = append(txs, []*sOp{mk(opPut, func(o *sOp) { o.bucket, o.key, o.val = vKVBuckets[0], k, vBytes(1) })})
+		txs = append(txs, []*sOp{mk(opPut, func(o *sOp) { o.bucket, o.key, o.val = vKVBuckets[0], k, argVal() })})
 	case 1, 5:
-		txs = append(txs, []*sOp{mk(opRPush, func(o *sOp) { o.dsKey, o.val = vDSKeys[0], vBytes(1) }),
-			mk(opRPush, func(o *sOp) { o.dsKey, o.val = vDSKeys[0], vBytes(1) })})
+		txs = append(txs, []*sOp{mk(opRPush, func(o *sOp) { o.dsKey, o.val = vDSKeys[0], argVal() }),
+			mk(opRPush, func(o *sOp) { o.dsKey, o.val = vDSKeys[0], argVal() })})
 	case 2, 7:
-		txs = append(txs, []*sOp{mk(opSAdd, func(o *sOp) { o.dsKey, o.val = vDSKeys[0], vBytes(1) }),
-			mk(opSAdd, func(o *sOp) { o.dsKey, o.val = vDSKeys[1], vBytes(1) })})
-	case 3:
-		txs = append(txs, []*sOp{mk(opZAdd, func(o *sOp) { o.key, o.score, o.val = vBytes(1), vScores[0], vBytes(1) }),
-			mk(opZAdd, func(o *sOp) { o.key, o.score, o.val = vBytes(1), vScores[1], vBytes(1) })})
+		txs = append(txs, []*sOp{mk(opSAdd, func(o *sOp) { o.dsKey, o.val = vDSKeys[0], argVal() }),
+			mk(opSAdd, func(o *sOp) { o.dsKey, o.val = vDSKeys[1], argVal() })})
+	case 3, 8, 9:
+		txs = append(txs, []*sOp{mk(opZAdd, func(o *sOp) { o.key, o.score, o.val = argKey(), vScores[0], argVal() }),
+			mk(opZAdd, func(o *sOp) { o.key, o.score, o.val = argKey(), vScores[1], argVal() })})
 	case 4:
-		k := vBytes(1)
+		k := argKey()
 		keys = append(keys, k)
-		txs = append(txs, []*sOp{mk(opPut, func(o *sOp) { o.bucket, o.key, o.val = vKVBuckets[0], k, vBytes(1) }),
-			mk(opRPush, func(o *sOp) { o.dsKey, o.val = vDSKeys[0], vBytes(1) }),
-			mk(opSAdd, func(o *sOp) { o.dsKey, o.val = vDSKeys[0], vBytes(1) }),
-			mk(opZAdd, func(o *sOp) { o.key, o.score, o.val = vBytes(1), vScores[0], vBytes(1) })})
+		txs = append(txs, []*sOp{mk(opPut, func(o *sOp) { o.bucket, o.key, o.val = vKVBuckets[0], k, argVal() }),
+			mk(opRPush, func(o *sOp) { o.dsKey, o.val = vDSKeys[0], argVal() }),
+			mk(opSAdd, func(o *sOp) { o.dsKey, o.val = vDSKeys[0], argVal() }),
+			mk(opZAdd, func(o *sOp) { o.key, o.score, o.val = argKey(), vScores[0], argVal() })})
 	}
 	return txs, keys
 }
 
 func init() {
 	profiles[7] = []int{opSAdd, opSRem, opSMove}
+	profiles[8] = []int{opZAdd, opZRem, opZPopMax}
+}
+
+func init() {
+	profiles[9] = []int{opZAdd, opZRem}
 }
